@@ -123,6 +123,12 @@ class Interp:
             return
         if isinstance(st, (ast.FunctionDef, ast.ClassDef)):
             # decorators / bases may need other modules: evaluate lazily
+            if isinstance(st, ast.FunctionDef):
+                for d in st.decorator_list:
+                    if isinstance(d, ast.Attribute) and d.attr == "register" and isinstance(d.value, ast.Name):
+                        # singledispatch overload: executed together with the dispatcher it registers on
+                        m.registrations.setdefault(d.value.id, []).append(st)
+                        return
             m.lazy[st.name] = (lambda s=st: self._exec_def(m, env, s))
             return
         if isinstance(st, (ast.Assign, ast.AnnAssign)):
@@ -160,6 +166,9 @@ class Interp:
         v = env.vars.pop(st.name)
         m.ns[st.name] = v
         m.lazy.pop(st.name, None)
+        for reg in m.registrations.get(st.name, []):
+            self.exec_stmt(ctx, env, reg)
+            env.vars.pop(reg.name, None)
         return v
 
     def _exec_lazy_assign(self, m, env, st, name):
@@ -175,12 +184,14 @@ class Interp:
         mod = self.world.get_module(src)
         if mod.external:
             return self.module_getattr(mod, name)
+        sub = f"{src}.{name}"
+        is_sub = self.world.is_repo_module(sub) and self.world.module_path(sub)[0]
+        if is_sub and name in mod.loading:
+            return self.world.get_module(sub)     # `from . import sub` inside the package itself
         v = self.module_lookup(mod, name)
         if v is not _MISSING:
             return v
-        # submodule
-        sub = f"{src}.{name}"
-        if self.world.is_repo_module(sub) and self.world.module_path(sub)[0]:
+        if is_sub:
             return self.world.get_module(sub)
         raise PyvcError(f"cannot import {name} from {src}")
 
@@ -547,6 +558,7 @@ class Interp:
             if isinstance(disp, DispatchVal):
                 ann = st.args.args[0].annotation
                 disp.registry.append((ast.unparse(ann) if ann is not None else "object", v))
+                v.qualname = f"{disp.qualname}.register[{ast.unparse(ann) if ann is not None else 'object'}]"
                 return disp if st.name == disp.name else v
         if txt.startswith(("functools.lru_cache", "lru_cache", "functools.cache")):
             return CachedFunc(v)
@@ -771,7 +783,11 @@ class Interp:
                 spec = None
                 if v.format_spec is not None:
                     spec = "".join(p.value for p in v.format_spec.values if isinstance(p, ast.Constant))
-                s = self.to_str(ctx, val, spec, conv=v.conversion)
+                if isinstance(val, (Obj, TupleVal, ExcVal)) or (isinstance(val, (ListVal, DictVal, SetVal, SymList, SeqVal))):
+                    # user-defined __str__/__repr__ is not run for message building (DESIGN 2.1): kept lazy
+                    s = FmtStr([LazyStr(val, spec, v.conversion)])
+                else:
+                    s = self.to_str(ctx, val, spec, conv=v.conversion)
                 if isinstance(s, str):
                     parts.append(s)
                 else:
@@ -1099,7 +1115,7 @@ class Interp:
         return self.inline_call(ctx, f, args, kwargs)
 
     def _inline_match(self, q):
-        for p in self.inline:
+        for p in list(self.inline) + list(self.always_inline):
             if p.endswith("*") and q.startswith(p[:-1]):
                 return True
         return False
@@ -1197,6 +1213,17 @@ class Interp:
         v = self.eval(ctx, env, n.value)
         self.assign(ctx, env, n.target, v)
         return v
+
+
+class LazyStr:
+    """str()/format() of an object, not evaluated unless the text is needed"""
+    __slots__ = ("val", "spec", "conv")
+
+    def __init__(self, val, spec, conv):
+        self.val, self.spec, self.conv = val, spec, conv
+
+    def __repr__(self):
+        return f"LazyStr({self.val!r})"
 
 
 class SuperVal:
